@@ -295,3 +295,147 @@ for kind, mk in (
 
         c.setup = setup
         con.cases.append(c)
+
+
+# ---- (D) if-expressions and select_with: one selection per merged value -------------------------------------------
+# The tracer joins the alternatives of every merged value in a shared temporary and records, per alternative, a
+# redirect (target temporary, source value) in that alternative's hook.  The IR must select, for EVERY merged value i,
+#      target_i  <=  body source_i   when the test is true,  orelse source_i  otherwise        (if-expression)
+#      target_i  <=  source_{j,i}    when the selector equals choice_j,  default source_i otherwise   (select_with)
+# with the alternatives paired by position, in every open block.
+from cohdl._compiler.frontend._value_branch import _ValueBranchHook, _Redirect  # noqa: E402
+from cohdl._core import _boolean  # noqa: E402
+from cohdl import Bit as _Bit  # noqa: E402
+
+I.register_inline(_ValueBranchHook.__dict__["has_redirect"])
+
+
+def hook(pairs):
+    return SObj(_ValueBranchHook, redirects=[SObj(_Redirect, target=t, source=s) for t, s in pairs], name=None)
+
+
+def ifexpr_shape(k, test_kind):
+    def make(env):
+        targets = [f"TARGET{i}" for i in range(k)]
+        test = SObj(out.Expression, f_role="test", _result=SObj(Temporary, f_tag="test", type=test_kind))
+        return SObj(out.IfExpr, _test=test, _body=SObj(out.Expression, f_role="body", _result=None), _orelse=SObj(out.Expression, f_role="orelse", _result=None),
+                    _hook_body=hook([(targets[i], f"BODY{i}") for i in range(k)]), _hook_orelse=hook([(targets[i], f"ORELSE{i}") for i in range(k)]))
+
+    return Built([], make, lambda a: "<ifexpr>", lambda a: None)
+
+
+def ifexpr_spec(k, test_kind, n):
+    def spec(sx, self, inp, open_blocks):
+        real_inp, real_blocks = sx.real_args[1], sx.real_args[2]
+
+        def holds(res):
+            if not (isinstance(res, list) and len(res) == len(real_blocks) and all(a is b for a, b in zip(res, real_blocks))):
+                return False
+            test_val = real_inp.fields["_test"].fields["_result"]
+            for b in real_blocks:
+                c = b.fields["f_content"]
+                if len(c) != k:
+                    return False
+                for i, nd in enumerate(c):
+                    if nd.kind is not ir.SelectWith:
+                        return False
+                    f = nd.fields
+                    br = f["f_branches"]
+                    if f["f_arg"] is not test_val or len(br) != 1 or f["result"] != f"TARGET{i}" or f["default"] != f"ORELSE{i}" or br[0][1] != f"BODY{i}":
+                        return False
+                    tv = br[0][0]
+                    # the single choice is 'true' of the test's type
+                    if test_kind is _Bit:
+                        from cohdl._core._bit import BitState
+
+                        real_one = isinstance(tv, _Bit) and bool(tv)
+                        ghost_one = isinstance(tv, SObj) and tv.kind is _Bit and tv.fields.get("_val") is BitState.HIGH
+                        if not (real_one or ghost_one):
+                            return False
+                    elif not (isinstance(tv, _boolean._Boolean) and bool(tv)):
+                        return False
+            return True
+
+        return C.Pred(holds, "target_i <= body_i when test else orelse_i, for every merged value")
+
+    return spec
+
+
+def _mk_select(it, args, kwargs):
+    o = SObj(ir.SelectWith, f_arg=args[0], f_branches=[tuple(b) for b in args[1]])
+    rest = list(args[2:])
+    o.fields["default"] = kwargs["default"] if "default" in kwargs else rest.pop(0)
+    o.fields["result"] = kwargs["result"] if "result" in kwargs else rest.pop(0)
+    return o
+
+
+for k in (0, 1, 2):
+    for test_kind in (_boolean._Boolean, _Bit):
+        for n in (1, 2):
+            SELF = Built([], lambda env: SObj(GI.IrGenerator, _mode=GI.IrGenerator.Mode.SEQUENTIAL), lambda a: "<gen>", lambda a: None)
+            OB = Built([], (lambda n: lambda env: [block(f"b{i}") for i in range(n)])(n), lambda a: "<blocks>", lambda a: None)
+            c = Case(f"ifexpr:{k}-merged-values,test={test_kind.__name__},{n}-open", [SELF, ifexpr_shape(k, test_kind), OB], ifexpr_spec(k, test_kind, n))
+            c.native = False
+            c.models = BASE_MODELS + [(GI.IrGenerator.__dict__["apply"], _operand_apply), (out.Expression.__dict__["result"], lambda it, self: self.fields["_result"])]
+            c.interp_flags = {"class_call_models": {**CLASS_MODELS, ir.SelectWith: _mk_select, _boolean._Boolean: lambda it, args, kwargs: _boolean._Boolean(*args)}}
+
+            def setup(it, ctx, args, env):
+                it.new_blocks = []
+                it.events = []
+
+            c.setup = setup
+            con.cases.append(c)
+
+
+def select_shape(k, nb, with_default):
+    def make(env):
+        targets = [f"TARGET{i}" for i in range(k)]
+        hooks = [hook([(targets[i], f"SRC{j}_{i}") for i in range(k)]) for j in range(nb)]
+        return SObj(out.SelectWith, _arg="SELECTOR", _conditions=[f"CHOICE{j}" for j in range(nb)], _branch_hooks=hooks,
+                    _default_hook=hook([(targets[i], f"DEFAULT{i}") for i in range(k)]) if with_default else None)
+
+    return Built([], make, lambda a: "<select>", lambda a: None)
+
+
+def select_spec(k, nb, with_default):
+    def spec(sx, self, inp, open_blocks):
+        real_blocks = sx.real_args[2]
+
+        def holds(res):
+            if not (isinstance(res, list) and all(a is b for a, b in zip(res, real_blocks)) and len(res) == len(real_blocks)):
+                return False
+            for b in real_blocks:
+                c = b.fields["f_content"]
+                if len(c) != k:
+                    return False
+                for i, nd in enumerate(c):
+                    f = nd.fields
+                    if nd.kind is not ir.SelectWith or f["f_arg"] != "SELECTOR" or f["result"] != f"TARGET{i}":
+                        return False
+                    if f["f_branches"] != [(f"CHOICE{j}", f"SRC{j}_{i}") for j in range(nb)]:
+                        return False
+                    if f["default"] != (f"DEFAULT{i}" if with_default else None):
+                        return False
+            return True
+
+        return C.Pred(holds, "target_i <= source_{j,i} when selector == choice_j, default_i otherwise")
+
+    return spec
+
+
+for k in (0, 1, 2):
+    for nb in (1, 2):
+        for with_default in (False, True):
+            SELF = Built([], lambda env: SObj(GI.IrGenerator, _mode=GI.IrGenerator.Mode.CONCURRENT), lambda a: "<gen>", lambda a: None)
+            OB = Built([], lambda env: [block("b0"), block("b1")], lambda a: "<blocks>", lambda a: None)
+            c = Case(f"select_with:{k}-merged-values,{nb}-branches{',default' if with_default else ''}", [SELF, select_shape(k, nb, with_default), OB], select_spec(k, nb, with_default))
+            c.native = False
+            c.models = BASE_MODELS
+            c.interp_flags = {"class_call_models": {**CLASS_MODELS, ir.SelectWith: _mk_select}}
+
+            def setup(it, ctx, args, env):
+                it.new_blocks = []
+                it.events = []
+
+            c.setup = setup
+            con.cases.append(c)
